@@ -736,7 +736,13 @@ impl Primitives for InvocationCtx<'_> {
     }
 
     fn hash_64(&self, hasher: SupportedHashes, data: &[u8]) -> ([u8; 64], usize) {
-        self.v.prims.hash_64(hasher, data)
+        // Not `prims.hash_64`: FakePrimitives::hash_64 (/repo/runtime/src/test_utils.rs) returns
+        // the multihash *code* where the digest length belongs (27 for keccak-256), which
+        // truncates every EVM KECCAK256 result to 27 bytes.
+        let d = self.v.prims.hash(hasher, data);
+        let mut buf = [0u8; 64];
+        buf[..d.len()].copy_from_slice(&d);
+        (buf, d.len())
     }
 
     fn recover_secp_public_key(
